@@ -37,7 +37,7 @@ func init() {
 		New:      func() any { return &C01Case{} },
 		Check:    func(c any) Result { return checkC01(c.(*C01Case)) },
 		Quick:    2500,
-		Thorough: 25000,
+		Thorough: 250000,
 	})
 }
 
